@@ -3,6 +3,7 @@
   cfg.keyOnTree     filters._get_definition_names / parser_utils._get_parent_scope_cache subscript
                     their weak dictionaries with `parso_cache_node`, which _AbstractUsedNamesFilter
                     takes from get_parso_cache_node(...) = parser_cache[grammar._hashed][path]
+  cfg.sigCachesUnmatched  helpers.cache_signatures: is a key whose before_bracket is None cached
   cfg.sigKeyFresh   helpers.cache_signatures yields (module_path, before_bracket, start_pos) with
                     before_bracket = re.match(...)   (a match object: identity comparison)
   cfg.memoPerScript InferenceState.__init__ assigns self.memoize_cache = {} and Script.__init__
@@ -87,6 +88,26 @@ def generate(repo, g):
         sig_fresh = False      # strings / positions: equal across Scripts
     else:
         raise TieBroken('helpers.cache_signatures: cannot classify key', repr(key_elts))
+    # which keys are not cached at all: `if <test>: yield None`
+    guards = [n for n in ast.walk(cs) if isinstance(n, ast.If) and any(
+        isinstance(y, ast.Yield) and (y.value is None or u(y.value) == 'None') for b in n.body for y in ast.walk(b))]
+    if len(guards) != 1:
+        raise TieBroken('helpers.cache_signatures: expected one `if ...: yield None`', str(len(guards)))
+    test = u(guards[0].test)
+    if test == 'module_path is None':
+        caches_unmatched = True
+    elif 'module_path is None' in test and ('%s is None' % u(mid)) in test and ' or ' in test and ' and ' not in test:
+        caches_unmatched = False
+    else:
+        raise TieBroken('helpers.cache_signatures: cannot classify the no-cache guard', test)
+    # the text the regex runs on: lines after the bracket line up to the cursor (the off-by-one that
+    # makes the regex fail for a cursor below the bracket's line)
+    other = assigns.get('other_lines')
+    if other is None or u(other) not in ('code_lines[bracket_leaf.start_pos[0]:line_index]',
+                                          'code_lines[bracket_leaf.start_pos[0] - 1:line_index]'):
+        raise TieBroken('helpers.cache_signatures: other_lines =', u(other) if other is not None else 'missing')
+    if u(other) == 'code_lines[bracket_leaf.start_pos[0] - 1:line_index]':
+        caches_unmatched = False    # the bracket's own line is included: the regex always matches
     deco = [u(d) for d in cs.decorator_list]
     if deco != ["signature_time_cache('call_signatures_validity')"]:
         raise TieBroken('helpers.cache_signatures decorators', repr(deco))
@@ -129,9 +150,9 @@ def generate(repo, g):
                  and not n.keywords for n in ast.walk(sinit))
 
     g.define('cfg', 'JediModel.Caches.Cfg',
-             '{ keyOnTree := %s, sigKeyFresh := %s, memoPerScript := %s, scriptCache := %s, '
+             '{ keyOnTree := %s, sigKeyFresh := %s, sigCachesUnmatched := %s, memoPerScript := %s, scriptCache := %s, '
              'diffCache := %s, validity := %d }' % (
-                 lean_bool(key_on_tree), lean_bool(sig_fresh), lean_bool(memo_per_script),
+                 lean_bool(key_on_tree), lean_bool(sig_fresh), lean_bool(caches_unmatched), lean_bool(memo_per_script),
                  lean_bool(script_cache), lean_bool(diff_cache), int(validity)),
              'filters._get_definition_names, parser_utils.get_parso_cache_node/_get_parent_scope_cache, '
              'helpers.cache_signatures, InferenceState.__init__, Script.__init__, settings')
